@@ -189,7 +189,7 @@ def runInput (st : St) (prog : Node) : St × Except String InputObs :=
   if mentions unmodelledRootNames prog then (st, .error "grol-defined root helper") else
   let st0 := { st with outs := [[]], steps := 0 }
   let (r, st1) := (eval defaultFuel prog).run st0 |>.run
-  let out := st1.outs.getLast?.getD []
+  let out := chunksBytes (st1.outs.getLast?.getD [])
   match r with
   | .ok v =>
     (st1, .ok { out := out, val := renderValue st1 v, isErr := v.isError, panic := "-", globals := renderGlobals st1 })
